@@ -32,6 +32,7 @@ type Oblig struct {
 	Output  string
 	name    string
 	nf      int // number of facts known when the obligation was generated: only those may be used
+	clause  *Clause // the contract clause a post obligation stems from (for replay)
 }
 
 type Engine struct {
